@@ -177,8 +177,9 @@ def quic_frame(max_data=300):
         st.tuples(st.just("blocked"), QV, QW),
         st.tuples(st.just("sblocked"), QV, QV, QW),
         st.tuples(st.just("ssblocked"), st.integers(0, 1 << 60), st.booleans(), QW),
-        st.tuples(st.just("reset"), QV, QV, QV, QW),
-        st.tuples(st.just("stop"), QV, QV, QW),
+        # RESET_STREAM / STOP_SENDING mostly for the small stream ids that the STREAM frames of the history use (a cancelled request)
+        st.tuples(st.just("reset"), st.one_of(st.integers(0, 12), st.integers(0, 12), QV), QV, QV, QW),
+        st.tuples(st.just("stop"), st.one_of(st.integers(0, 12), st.integers(0, 12), QV), QV, QW),
         st.tuples(st.just("rcid"), st.integers(0, 20), QW),
         st.tuples(st.just("pc")), st.tuples(st.just("pr")),
         st.tuples(st.just("hsdone")),
